@@ -525,6 +525,10 @@ def run(prop: str, info: dict):
     info.setdefault("translators", {})["gen_cpals"] = {
         "lost": lost, "anchors": desc.get("anchors", []), "inlined_helpers": desc.get("inlined_helpers", []),
         "drifted_statements": desc.get("drifted_statements", []), "source_sha1": desc.get("source_sha1")}
+    if text_ is None:
+        # the source could not be read at all: the pinned definitions (never a stale file of another tree)
+        pin = Path(__file__).parent / "pinned" / OUT.name
+        text_ = pin.read_text() if pin.exists() else None
     if text_ is not None:
         OUT.parent.mkdir(parents=True, exist_ok=True)
         if not OUT.exists() or OUT.read_text() != text_:
